@@ -1,0 +1,25 @@
+//go:build verif
+
+package bstream
+
+// Verification hooks for property C19 (add-only, compiled only with -tags verif).
+
+// VerifC19NewRange builds a Range from raw field values, without the constructor's validation.
+func VerifC19NewRange(start uint64, end *uint64, exclusiveStart, exclusiveEnd bool) *Range {
+	var e *uint64
+	if end != nil {
+		v := *end
+		e = &v
+	}
+	return &Range{startBlock: start, endBlock: e, exclusiveStartBlock: exclusiveStart, exclusiveEndBlock: exclusiveEnd}
+}
+
+// VerifC19Fields returns the raw field values of a Range.
+func VerifC19Fields(r *Range) (start uint64, end *uint64, exclusiveStart, exclusiveEnd bool) {
+	var e *uint64
+	if r.endBlock != nil {
+		v := *r.endBlock
+		e = &v
+	}
+	return r.startBlock, e, r.exclusiveStartBlock, r.exclusiveEndBlock
+}
